@@ -33,8 +33,8 @@ func vhEventOK(e map[string]interface{}) {
 
 // VH_C01_index1: one pattern, one event.
 func VH_C01_index1(pshape, eshape int) {
-	p := vhPatternB(pshape, &vhB{prefix: "p", plain: true, lite: vhMultiLeaf(pshape)})
-	e := vhDataB(eshape, &vhB{prefix: "d", plain: true, lite: vhMultiLeaf(eshape)})
+	p := vhPatternB(pshape, &vhB{prefix: "p", plain: true, lite: vhMultiLeaf(pshape), sortable: true, noVarConst: true})
+	e := vhDataB(eshape, &vhB{prefix: "d", plain: true, lite: vhMultiLeaf(eshape), sortable: true})
 	vhEventOK(e)
 	idx := NewPatternIndex()
 	errA := idx.AddPatternMap(nil, p, "r1")
@@ -62,9 +62,9 @@ func VH_C01_index1(pshape, eshape int) {
 // VH_C01_index2: two patterns (the second one is added, possibly removed again) must not
 // disturb the first.
 func VH_C01_index2(pshape, qshape, eshape int) {
-	p := vhPatternB(pshape, &vhB{prefix: "p", plain: true, lite: true})
-	q := vhPatternB(qshape, &vhB{prefix: "q", plain: true, lite: true})
-	e := vhDataB(eshape, &vhB{prefix: "d", plain: true, lite: true})
+	p := vhPatternB(pshape, &vhB{prefix: "p", plain: true, lite: true, sortable: true, noVarConst: true})
+	q := vhPatternB(qshape, &vhB{prefix: "q", plain: true, lite: true, sortable: true, noVarConst: true})
+	e := vhDataB(eshape, &vhB{prefix: "d", plain: true, lite: true, sortable: true})
 	vhEventOK(e)
 	idx := NewPatternIndex()
 	vassume(idx.AddPatternMap(nil, p, "r1") == nil)
@@ -89,6 +89,55 @@ func VH_C01_index2(pshape, qshape, eshape int) {
 		if removed {
 			vassert(!ids.Contains("r2"), "removed-pattern-not-found")
 		}
+	}
+	vreach("end")
+}
+
+
+// ---- witness harnesses of the open findings (they must stay violated) ----
+
+// VH_C01_witness_unsortable_event: an event holding an array the index cannot sort
+// (mixed scalar kinds, or two maps) under a key some rule mentions makes the whole rule
+// search fail.
+func VH_C01_witness_unsortable_event(kind int) {
+	b := &vhB{prefix: "p", plain: true}
+	k := b.key()
+	p := map[string]interface{}{k: b.str()}
+	d := &vhB{prefix: "d", plain: true}
+	var arr []interface{}
+	if kind == 0 {
+		arr = []interface{}{d.str(), d.num()}
+	} else {
+		arr = []interface{}{map[string]interface{}{d.key(): d.num()}, map[string]interface{}{d.key(): d.str()}}
+	}
+	e := map[string]interface{}{k: arr}
+	idx := NewPatternIndex()
+	vassume(idx.AddPatternMap(nil, p, "r1") == nil)
+	_, errS := idx.SearchPatternsMap(nil, e)
+	vassert(errS == nil, "search-no-error")
+	vreach("end")
+}
+
+// VH_C01_witness_array_var: a when-array holding a constant and a variable is indexed
+// in sorted order, and the search consumes event elements in sorted order too, so the
+// variable cannot take an element that sorts before the constant.
+func VH_C01_witness_array_var() {
+	b := &vhB{prefix: "p", plain: true}
+	k := b.key()
+	c := b.str()
+	p := map[string]interface{}{k: []interface{}{c, "?x"}}
+	d := &vhB{prefix: "d", plain: true}
+	e1, e2 := d.str(), d.str()
+	vassume(e1 != e2)
+	e := map[string]interface{}{k: []interface{}{e1, e2}}
+	idx := NewPatternIndex()
+	vassume(idx.AddPatternMap(nil, p, "r1") == nil)
+	bss, errM := Matches(nil, p, e)
+	vassume(errM == nil)
+	ids, errS := idx.SearchPatternsMap(nil, e)
+	vassume(errS == nil)
+	if len(bss) > 0 {
+		vassert(ids.Contains("r1"), "matching-pattern-found")
 	}
 	vreach("end")
 }
